@@ -642,7 +642,7 @@ var subC19Conf = core.NewSub("C19/confusable-histories", func(w *core.Worker, c 
 func init() { register("C19", "model_checking", runC19) }
 
 func runC19(ctx *core.Ctx) {
-	ctx.Rule("all sequences up to the depth bound over an alphabet of 17 constructor/accessor calls (NewIdentityPoint, NewGeneratorPoint, NewScalar, ExtendedCoordinates, Point.Bytes, BytesMontgomery, Scalar.Bytes, Element.Bytes, and the accessors on special values: zero scalar/element, identity, the point of order 2), 6 scribbles (overwrite one of the two most recent returned values through its exported setters / raw bytes up to cap, three modes) and 4 heavy operations; each sequence executed from fresh source values (successor = replay of the history, no cloning). Invariants after every step: source values bit-identical; every unscribbled earlier result unchanged; each new result equals the model and its memory is disjoint from sources and earlier results; a 70-call probe battery over fixed arguments (every operation class, receivers with different histories) returns byte-identical output. states = sequences explored, transitions = steps executed. Plus: every multiplication routine into four receiver histories must give identical bytes")
+	ctx.Rule("all sequences up to the depth bound over an alphabet of 17 constructor/accessor calls (NewIdentityPoint, NewGeneratorPoint, NewScalar, ExtendedCoordinates, Point.Bytes, BytesMontgomery, Scalar.Bytes, Element.Bytes, and the accessors on special values: zero scalar/element, identity, the point of order 2), 6 scribbles (overwrite one of the two most recent returned values through its exported setters / raw bytes up to cap, three modes) and 4 heavy operations; each sequence executed from fresh source values (successor = replay of the history, no cloning). Invariants after every step: source values bit-identical; every unscribbled earlier result unchanged; each new result equals the model and its memory is disjoint from sources and earlier results; a 70-call probe battery over fixed arguments (every operation class, receivers with different histories) returns byte-identical output. states = sequences explored, transitions = steps executed. Plus: every multiplication routine into four receiver histories must give identical bytes; confusable consecutive calls; every byte-input setter fed 20 different values through ONE reused caller buffer (two passes, fresh and used receivers, each previous value decoded again from a fresh slice); 40 (thorough: 72) pairwise distinct points pushed through each of 13 operations with every earlier point asked again after each new one, and multi-scalar calls over all earlier points plus one new point")
 	ctx.Assume("package state is observed through behaviour (probe battery) and pointer ranges, not through a memory snapshot of package variables", "workers share the process; a violation corrupting package state may cascade into later sequences of the same run (the first one is reported)")
 	ops := c19Ops(ctx.Tier)
 	n := len(ops)
@@ -708,4 +708,6 @@ func runC19(ctx *core.Ctx) {
 		}
 	}
 	subC19Conf.RunList(ctx, cc)
+	// longer histories: reused input buffers, many distinct points through one operation
+	runC19Long(ctx)
 }
